@@ -91,7 +91,7 @@ impl Check for C05 {
         let m = self.ctx.model(exp);
         let nmax = if cf.chance(1, 3) { 14 } else { 4 };
         let n = 2 + cf.below(nmax) as usize;
-        let mut knobs = Knobs::default();
+        let mut knobs = Knobs { avoid_cond_flag_branches: 90, ..Knobs::default() };
         if cf.chance(1, 6) {
             knobs.max_arr = 30;
             knobs.size_budget = 36_000;
@@ -114,7 +114,10 @@ impl Check for C05 {
             let k = 1 + cf.below(2);
             for _ in 0..k {
                 let len = if exp == Exp::Wrath && dir == Dir::Server {
-                    *cf.pick(&[0usize, 1, 0x7FF0, 0x7FFA, 0x7FFB, 0x7FFD, 0x7FFE, 0x7FFF, 0x8000, 0x8001, 0x8002, 0x9000, 0xFFFF])
+                    match cf.below(4) {
+                        0 => *cf.pick(&[0usize, 1, 0x7FF0, 0x9000, 0xFFFF]),
+                        _ => 0x7FF6 + cf.below(16) as usize, // every length around the 2/3-byte header boundary
+                    }
                 } else {
                     *cf.pick(&[0usize, 1, 100, 0x7FFF, 0x8000, 0xFFF0])
                 };
@@ -129,7 +132,13 @@ impl Check for C05 {
         let ws = if cf.chance(1, 2) { Schedule::whole() } else { Schedule::random(&mut sr, total, wfl == Flavour::Sync) };
         let rs = if cf.chance(1, 4) { Schedule::whole() } else { Schedule::random(&mut sr, total, rfl == Flavour::Sync) };
         let key = key_of(&mut cf);
-        json!({"kind": "session", "label": format!("{}:{}:{}", exp.name(), dir.name(), names.join("+")),
+        let wrong: Vec<Value> = if entry == "expect" && cf.chance(1, 4) && !names.is_empty() {
+            let k = cf.below(names.len() as u64 + warden.len() as u64);
+            vec![json!([k, *cf.pick(type_names(exp, dir))])]
+        } else {
+            vec![]
+        };
+        json!({"kind": "session", "wrong_expect": wrong, "label": format!("{}:{}:{}", exp.name(), dir.name(), names.join("+")),
             "exp": exp.name(), "dir": dir.name(), "frames": frames, "names": names, "warden": warden, "key": hex(&key),
             "wflavour": wfl.name(), "rflavour": rfl.name(), "rentry": entry, "wsched": sched_json(&ws), "rsched": sched_json(&rs)})
     }
